@@ -4,6 +4,7 @@
   reply:
     {"init": snapshot, "steps": [{"res":…, "view":[…], "mem":[…], "disk":…, "reload":[…]}, …],
      "sent": [...], "issued": [...], "retired": [...]}
+  or a script of file-primitive calls over several file names (see `handleFs`).
   Anything malformed is answered {"err": …}; nothing is defaulted.
 -/
 import PercevalModel.Proto
@@ -193,7 +194,29 @@ def runHistory (v : Variant) (s0 : State) (ops : List Op) : State × List Json :
     let r := step v acc.1 op
     (r.1, acc.2 ++ [Json.mkObj ([("res", resJ r.2.res), ("view", toJson r.2.view)] ++ snapshot v r.1)])) (s0, [])
 
-def handle (j : Json) : Json :=
+/-! file primitives: {"fs": [{"op":"write","n":1,"c":2}, {"op":"delete","n":1}, {"op":"read","n":1},
+   {"op":"has","n":1}, {"op":"open","n":1}]} → {"obs": ["done", {"content": null|c}, {"found": b}, …]} -/
+def fsOpOf (j : Json) : Except String FS.Op := do
+  let n ← (← reqKey j "n").getNat?
+  match (← (← reqKey j "op").getStr?) with
+  | "write" => return .write n (← (← reqKey j "c").getNat?)
+  | "delete" => return .delete n
+  | "read" => return .read n
+  | "has" => return .has n
+  | "open" => return .openGroup n
+  | s => throw s!"bad fs op {s}"
+
+def fsObsJ : FS.Obs → Json
+  | .done => .str "done"
+  | .content c => Json.mkObj [("content", optNatJ c)]
+  | .found b => Json.mkObj [("found", toJson b)]
+
+def handleFs (j : Json) : Json :=
+  match (do (← j.getArr?).toList.mapM fsOpOf : Except String (List FS.Op)) with
+  | .error e => errJson e
+  | .ok ops => Json.mkObj [("obs", Json.arr ((PM.SM.run (FS.step FS.real) FS.empty ops).2.map fsObsJ).toArray)]
+
+def handleHistory (j : Json) : Json :=
   match (do
     let v ← variantOf (← reqKey j "variant")
     let dir ← (← reqKey j "dir").getBool?
@@ -206,5 +229,10 @@ def handle (j : Json) : Json :=
     Json.mkObj [("init", Json.mkObj (snapshot v s0)), ("steps", Json.arr r.2.toArray),
                 ("sent", Json.arr (r.1.sent.map sentJ).toArray),
                 ("issued", toJson r.1.issued), ("retired", toJson r.1.retired)]
+
+def handle (j : Json) : Json :=
+  match optKey j "fs" with
+  | some ops => handleFs ops
+  | none => handleHistory j
 
 def main : IO Unit := run handle
